@@ -705,7 +705,9 @@ impl Printf {
                         }
                     }
                     Err(e) => {
-                        eprintln!(
+                        // A diagnostic that cannot be written must not stop the walk.
+                        let _ = writeln!(
+                            std::io::stderr(),
                             "Error processing '{}': {}",
                             file_info.path().to_string_lossy(),
                             e
